@@ -1286,8 +1286,8 @@ def literal_texts(init, out):
     return out
 
 
-SABA_INLINE = {"reb_integrator_saba_synchronize", "reb_saba_stages", "reb_saba_corrector_step"}
-WH_INLINE = {"reb_integrator_whfast_synchronize", "reb_whfast_apply_corrector", "reb_whfast_apply_corrector2",
+SABA_INLINE = {"reb_integrator_saba_synchronize", "reb_saba_stages", "reb_saba_corrector_step", "reb_integrator_whfast_init"}
+WH_INLINE = {"reb_integrator_whfast_init", "reb_integrator_whfast_synchronize", "reb_whfast_apply_corrector", "reb_whfast_apply_corrector2",
              "reb_whfast_corrector_Z", "reb_whfast_operator_C", "reb_whfast_operator_Y", "reb_whfast_operator_U"}
 EOS_INLINE = {"reb_integrator_eos_preprocessor", "reb_integrator_eos_postprocessor", "reb_integrator_eos_synchronize"}
 JANUS_INLINE = {"gg", "reb_integrator_janus_synchronize"}
@@ -1341,7 +1341,7 @@ def extract_all(repo):
     D["enums"]["saba"] = sorted(((k, v) for k, v in enums.items() if k.startswith("REB_SABA_")), key=lambda kv: kv[1])
     base = {"r.N": 2, "r.N_var": 0, "r.N_active": -1, "r.testparticle_type": 0, "r.N_var_config": 0, "r.t": Fraction(0),
             "r.ri_whfast.coordinates": 0, "r.ri_whfast.recalculate_coordinates_this_timestep": 0,
-            "r.ri_whfast.p_jh": Path("pjh"), "r.ri_whfast.N_allocated_tmp": 2, "r.ri_whfast.p_temp": Path("ptemp"),
+            "r.ri_whfast.p_jh": Path("pjh"), "r.ri_whfast.N_allocated": 2, "r.ri_whfast.N_allocated_tmp": 2, "r.ri_whfast.p_temp": Path("ptemp"),
             "r.ri_whfast.safe_mode": 1, "r.ri_whfast.is_synchronized": 1, "r.ri_whfast.keep_unsynchronized": 0,
             "r.ri_whfast.recalculate_coordinates_but_not_synchronized_warning": 0, "r.particles": Path("r.particles"),
             "r.ri_whfast.kernel": 0, "r.ri_whfast.corrector": 0, "r.ri_whfast.corrector2": 0,
@@ -1351,10 +1351,9 @@ def extract_all(repo):
         stages = call_function([saba], enums, "reb_saba_stages", [val])
         m = dict(base); m["r.ri_saba.type"] = val
         step = ["reb_integrator_saba_part1", "FORCE", "reb_integrator_saba_part2"]
-        one = abstract(run_config([saba, wh], enums, step, m, SABA_INLINE, {"reb_integrator_whfast_init": 0}), "saba")
+        one = abstract(run_config([saba, wh], enums, step, m, SABA_INLINE, {}), "saba")
         m2 = dict(m); m2["r.ri_saba.safe_mode"] = 0
-        two = abstract(run_config([saba, wh], enums, step + step + ["reb_integrator_saba_synchronize"], m2, SABA_INLINE,
-                                  {"reb_integrator_whfast_init": 0}), "saba")
+        two = abstract(run_config([saba, wh], enums, step + step + ["reb_integrator_saba_synchronize"], m2, SABA_INLINE, {}), "saba")
         D["saba"].append({"name": name, "value": val, "stages": stages, "step": one, "two_unsync": two})
 
     # ---- WHFast
@@ -1376,7 +1375,7 @@ def extract_all(repo):
                               "r.ri_whfast.corrector2": c2})
                     # configurations rejected by reb_integrator_whfast_init (not interpreted here) are decided by running init
                     try:
-                        rej = run_config([wh], enums, ["reb_integrator_whfast_init"], m, set(), {})
+                        rej = run_config([wh], enums, ["reb_integrator_whfast_init"], m, {"reb_integrator_whfast_init"}, {})
                         rejected = False
                     except ExtractError as ex:
                         if "source rejects" not in str(ex):
@@ -1384,10 +1383,10 @@ def extract_all(repo):
                         rejected = True
                     ent = {"coordinates": coord, "kernel": kern, "corrector": corr, "corrector2": c2, "rejected": rejected}
                     if not rejected:
-                        ent["step"] = abstract(run_config([wh], enums, step, m, WH_INLINE, {"reb_integrator_whfast_init": 0}), "whfast")
+                        ent["step"] = abstract(run_config([wh], enums, step, m, WH_INLINE, {}), "whfast")
                         m2 = dict(m); m2["r.ri_whfast.safe_mode"] = 0
                         ent["two_unsync"] = abstract(run_config([wh], enums, step + step + ["reb_integrator_whfast_synchronize"], m2,
-                                                                WH_INLINE, {"reb_integrator_whfast_init": 0}), "whfast")
+                                                                WH_INLINE, {}), "whfast")
                     D["whfast"].append(ent)
     D["whfast_correctors"] = []
     for corr in corr_orders[1:]:
